@@ -130,7 +130,7 @@ NEVER_INLINE = {
 
 
 class Program:
-    def __init__(self, path, expect_nonce=None, inline=True, data=None):
+    def __init__(self, path, expect_nonce=None, inline=True, data=None, flatten=True):
         if data is not None:
             self.d = data
         else:
@@ -143,7 +143,7 @@ class Program:
             # detail of its parent: its items are analysed under the parent's path, which is what the spec tables and the
             # public API name.  Flattening is skipped for a module whose items would collide with the parent's.
             self.flattened_modules = []
-            for m in sorted((m["path"] for m in self.d.get("mods", []) if not m["pub"] and m["path"].count("::") >= 1),
+            for m in sorted((m["path"] for m in (self.d.get("mods", []) if flatten else []) if not m["pub"] and m["path"].count("::") >= 1),
                             key=lambda s: -s.count("::")):
                 parent = m.rsplit("::", 1)[0]
                 flat = text.replace(m + "::", parent + "::")
